@@ -24,6 +24,10 @@ func runBounded(b BoundedCfg) (map[string]interface{}, string) {
 	cmd.Dir = *verifDir
 	// the stand-ins read their bound from the tier of this run
 	cmd.Env = append(os.Environ(), "VERIF_TIER="+*tier)
+	if *overlayF != "" {
+		// self-test mutants reach the stand-ins too (tools/bounded.py merges them into its overlay)
+		cmd.Env = append(cmd.Env, "VERIF_OVERLAY="+*overlayF)
+	}
 	var buf bytes.Buffer
 	cmd.Stdout = &buf
 	cmd.Stderr = &buf
